@@ -504,16 +504,8 @@ private:
     usize capacity = minCapacity | 0x3;
     Data* newData = (Data*)new char[(capacity + 1) * sizeof(char) + sizeof(Data)];
     newData->str = (char*)((byte*)newData + sizeof(Data));
-    if(data->len > 0)
-    {
-      Memory::copy((char*)newData->str, data->str, (data->len < copyLength ? data->len : copyLength) * sizeof(char));
-      ((char*)newData->str)[newData->len = copyLength] = '\0';
-    }
-    else
-    {
-      *(char*)newData->str = '\0';
-      newData->len = copyLength;
-    }
+    Memory::copy((char*)newData->str, data->str, (data->len < copyLength ? data->len : copyLength) * sizeof(char));
+    ((char*)newData->str)[newData->len = copyLength] = '\0';
     newData->ref = 1;
     newData->capacity = capacity;
 
